@@ -47,8 +47,8 @@ Qed.
 (* ================================================================== the training loop *)
 Section TrainProofs.
   Variable OS : Type.
-  Variable sel_init : list (list Z) -> Z -> OS * option (Z * Z).
-  Variable sel_step : OS -> Z * Z -> Z -> list (list Z) -> list (list Z) -> OS * option (Z * Z).
+  Variable sel_init : list (list Z) -> Z -> res (OS * option (Z * Z)).
+  Variable sel_step : OS -> Z * Z -> Z -> list (list Z) -> list (list Z) -> res (OS * option (Z * Z)).
 
   Notation train_loop := (train_loop OS sel_step).
   Notation bpe_train := (bpe_train OS sel_init sel_step).
@@ -91,7 +91,7 @@ Section TrainProofs.
       assert (Henc' : map (contract (fst p) (snd p) nc) enc = map (encode_from (ms0 ++ [p]) (mcc + 1)) X).
       { rewrite Henc, map_map. apply map_ext. intros s. rewrite encode_from_snoc. f_equal.
         rewrite app_length in Hnc. simpl in Hnc. lia. }
-      destruct (sel_step st p nc enc (map (contract (fst p) (snd p) nc) enc)) as [st' [p'|]].
+      destruct (sel_step st p nc enc (map (contract (fst p) (snd p) nc) enc)) as [[st' [p'|]]|]; simpl in Ht; [| |discriminate].
       + apply bind_ok in Ht as (tok & Htok & Ht).
         apply (IH st' (toks ++ [tok]) (ms0 ++ [p]) p' (nc + 1)) in Ht.
         * destruct Ht as (H1 & H2 & H3 & H4 & extra & H5). repeat split; try assumption.
@@ -116,7 +116,7 @@ Section TrainProofs.
     (1 <= v -> Z.of_nat (length (t_tokens t)) <= v).
   Proof.
     unfold K8_BPE.bpe_train. fold (fitted_mcc X mcc0). set (mcc := fitted_mcc X mcc0).
-    destruct (sel_init X mcc) as [st [p|]]; [|discriminate].
+    destruct (sel_init X mcc) as [[st [p|]]|]; simpl; [|discriminate|discriminate].
     destruct (is_codepoint (fst p) && is_codepoint (snd p)); [|discriminate].
     intros Ht.
     apply (train_loop_replay X mcc _ st [[fst p; snd p]] [] p (mcc + 1) X t) in Ht;
@@ -129,14 +129,16 @@ Section TrainProofs.
   Qed.
 
   (* ---------- under a sound oracle: training succeeds and its merge list is well formed ---------- *)
-  Variable Inv : OS -> Z -> nat -> Prop.     (* oracle state, max_char_code, number of codes fully contracted *)
-  Hypothesis init_sound : forall X mcc st o,
-    Forall (is_char mcc) (concat X) -> sel_init X mcc = (st, o) ->
-    Inv st mcc 0 /\ forall p, o = Some p -> is_char mcc (fst p) /\ is_char mcc (snd p).
-  Hypothesis step_sound : forall st mcc k p enc st' o,
-    Inv st mcc k -> Forall (wf_code mcc k) (concat enc) -> wf_code mcc k (fst p) -> wf_code mcc k (snd p) ->
-    sel_step st p (mcc + 1 + Z.of_nat k) enc (map (contract (fst p) (snd p) (mcc + 1 + Z.of_nat k)) enc) = (st', o) ->
-    Inv st' mcc (S k) /\ forall q, o = Some q -> wf_code mcc (S k) (fst q) /\ wf_code mcc (S k) (snd q).
+  (* oracle state, max_char_code, number of codes fully contracted, the pending pair the state goes with *)
+  Variable Inv : OS -> Z -> nat -> Z * Z -> Prop.
+  Hypothesis init_sound : forall X mcc st p,
+    Forall (is_char mcc) (concat X) -> sel_init X mcc = Ok (st, Some p) ->
+    Inv st mcc 0 p /\ is_char mcc (fst p) /\ is_char mcc (snd p).
+  Hypothesis step_sound : forall st mcc k p enc,
+    Inv st mcc k p -> Forall (wf_code mcc k) (concat enc) -> wf_code mcc k (fst p) -> wf_code mcc k (snd p) ->
+    exists st' o,
+      sel_step st p (mcc + 1 + Z.of_nat k) enc (map (contract (fst p) (snd p) (mcc + 1 + Z.of_nat k)) enc) = Ok (st', o) /\
+      forall q, o = Some q -> Inv st' mcc (S k) q /\ wf_code mcc (S k) (fst q) /\ wf_code mcc (S k) (snd q).
 
   Lemma wf_merges_snoc mcc ms q :
     wf_merges mcc ms -> wf_code mcc (length ms) (fst q) -> wf_code mcc (length ms) (snd q) ->
@@ -162,7 +164,7 @@ Section TrainProofs.
     0 <= mcc ->
     wf_merges mcc (ms0 ++ [p]) ->
     build_tokens mcc (ms0 ++ [p]) = Ok toks ->
-    Inv st mcc (length ms0) ->
+    Inv st mcc (length ms0) p ->
     Forall (wf_code mcc (length ms0)) (concat enc) ->
     exists t, train_loop room st toks (ms0 ++ [p]) p (mcc + 1 + Z.of_nat (length ms0)) enc mcc = Ok t /\
               wf_merges mcc (t_merges t) /\ build_tokens mcc (t_merges t) = Ok (t_tokens t).
@@ -175,10 +177,10 @@ Section TrainProofs.
       { destruct p as [a b]. destruct Hwf as [_ Hwf]. apply Hwf.
         rewrite nth_error_app2 by lia. rewrite Nat.sub_diag. reflexivity. }
       destruct Hp as [Hpa Hpb].
-      destruct (sel_step st p _ enc _) as [st' o] eqn:Hsel.
-      destruct (step_sound st mcc (length ms0) p enc st' o Hinv Henc Hpa Hpb Hsel) as [Hinv' Hq].
+      destruct (step_sound st mcc (length ms0) p enc Hinv Henc Hpa Hpb) as (st' & o & Hsel & Hq).
+      rewrite Hsel. simpl bind.
       destruct o as [q|].
-      + destruct (Hq q eq_refl) as [Hqa Hqb].
+      + destruct (Hq q eq_refl) as (Hinv' & Hqa & Hqb).
         assert (Hlen : length (ms0 ++ [p]) = S (length ms0)) by (rewrite app_length; simpl; lia).
         assert (Hwf' : wf_merges mcc ((ms0 ++ [p]) ++ [q])) by (apply wf_merges_snoc; [assumption | rewrite Hlen; assumption ..]).
         destruct (build_tokens_ok mcc _ Hwf) as (toks0 & Hb0 & Hok0). rewrite Hb in Hb0. inversion Hb0; subst toks0.
@@ -199,12 +201,12 @@ Section TrainProofs.
 
   Theorem train_sound X v mcc0 st p :
     Forall codepoints X ->
-    sel_init X (fitted_mcc X mcc0) = (st, Some p) ->
+    sel_init X (fitted_mcc X mcc0) = Ok (st, Some p) ->
     exists t, bpe_train X v mcc0 = Ok t /\ wf_merges (t_mcc t) (t_merges t) /\
               build_tokens (t_mcc t) (t_merges t) = Ok (t_tokens t).
   Proof.
     intros HX Hsel. unfold K8_BPE.bpe_train. fold (fitted_mcc X mcc0). set (mcc := fitted_mcc X mcc0) in *.
-    rewrite Hsel.
+    rewrite Hsel. simpl bind.
     destruct (fold_max_ge (concat X) mcc0) as [_ Hall]. fold (fitted_mcc X mcc0) in Hall. fold mcc in Hall.
     assert (Hchars : Forall (fun c => 0 <= c <= MAXCP) (concat X)) by (apply Forall_concat; exact HX).
     assert (Hischar : Forall (is_char mcc) (concat X)).
@@ -212,8 +214,7 @@ Section TrainProofs.
       - eapply Forall_forall in Hchars; eauto. simpl in Hchars. lia.
       - eapply Forall_forall in Hall; eauto.
       - eapply Forall_forall in Hchars; eauto. simpl in Hchars. lia. }
-    destruct (init_sound X mcc st (Some p) Hischar Hsel) as [Hinv Hp].
-    destruct (Hp p eq_refl) as [Hpa Hpb].
+    destruct (init_sound X mcc st p Hischar Hsel) as (Hinv & Hpa & Hpb).
     assert (Hm : 0 <= mcc) by (destruct Hpa as [[? ?] _]; lia).
     {
       assert (Hcp : is_codepoint (fst p) && is_codepoint (snd p) = true).
@@ -268,8 +269,8 @@ Qed.
 
 Section Consequences.
   Variable OS : Type.
-  Variable sel_init : list (list Z) -> Z -> OS * option (Z * Z).
-  Variable sel_step : OS -> Z * Z -> Z -> list (list Z) -> list (list Z) -> OS * option (Z * Z).
+  Variable sel_init : list (list Z) -> Z -> res (OS * option (Z * Z)).
+  Variable sel_step : OS -> Z * Z -> Z -> list (list Z) -> list (list Z) -> res (OS * option (Z * Z)).
 
   (* transform re-encodes the training strings to exactly what fit_transform returned, whatever the oracle *)
   Theorem transform_train_any X v mcc0 t :
@@ -279,23 +280,28 @@ Section Consequences.
     unfold transform_sequences. rewrite H. apply mapM_ok_map. intros s _. apply bpe_encode_ok.
   Qed.
 
-  (* oracles whose choice occurs in the current encodings (what a pair-frequency table can offer) are sound *)
+  (* oracles that never raise and whose choice occurs in the current encodings (what a pair-frequency table can
+     offer) are sound *)
   Hypothesis init_occurs : forall X mcc st a b,
-    sel_init X mcc = (st, Some (a, b)) -> In a (concat X) /\ In b (concat X).
+    sel_init X mcc = Ok (st, Some (a, b)) -> In a (concat X) /\ In b (concat X).
+  Hypothesis step_total : forall st p c enc enc', exists st' o, sel_step st p c enc enc' = Ok (st', o).
   Hypothesis step_occurs : forall st p c enc enc' st' a b,
-    sel_step st p c enc enc' = (st', Some (a, b)) -> In a (concat enc') /\ In b (concat enc').
+    sel_step st p c enc enc' = Ok (st', Some (a, b)) -> In a (concat enc') /\ In b (concat enc').
 
   Theorem train_sound_occurs X v mcc0 st p :
     Forall codepoints X ->
-    sel_init X (fitted_mcc X mcc0) = (st, Some p) ->
+    sel_init X (fitted_mcc X mcc0) = Ok (st, Some p) ->
     exists t, bpe_train OS sel_init sel_step X v mcc0 = Ok t /\ wf_merges (t_mcc t) (t_merges t) /\
               build_tokens (t_mcc t) (t_merges t) = Ok (t_tokens t).
   Proof.
-    apply (train_sound OS sel_init sel_step (fun _ _ _ => True)).
-    - intros X' mcc st' o Hall Hsel. split; [exact I|]. intros [a b] ->.
+    apply (train_sound OS sel_init sel_step (fun _ _ _ _ => True)).
+    - intros X' mcc st' [a b] Hall Hsel. split; [exact I|].
       destruct (init_occurs _ _ _ _ _ Hsel) as [Ha Hb]. simpl.
       split; eapply Forall_forall in Hall; eauto.
-    - intros st0 mcc k p0 enc st' o _ Henc _ _ Hsel. split; [exact I|]. intros [a b] ->.
+    - intros st0 mcc k p0 enc _ Henc _ _.
+      destruct (step_total st0 p0 (mcc + 1 + Z.of_nat k) enc (map (contract (fst p0) (snd p0) (mcc + 1 + Z.of_nat k)) enc))
+        as (st' & o & Hsel).
+      exists st', o. split; [exact Hsel|]. intros [a b] ->. split; [exact I|].
       destruct (step_occurs _ _ _ _ _ _ _ _ Hsel) as [Ha Hb]. simpl.
       pose proof (contract_all_wf mcc k p0 enc Henc) as Hall.
       split; eapply Forall_forall in Hall; eauto.
